@@ -15,6 +15,7 @@ import (
 type RecorderModel struct {
 	name string
 	env  *Env
+	uf   bool // results are uninterpreted functions of the (scalar) arguments
 }
 
 func (m *RecorderModel) ModelName() string { return "Recorder:" + m.name }
@@ -27,6 +28,39 @@ func (m *RecorderModel) Invoke(x *Exec, method string, args []Value, c *ssa.Call
 	mk := func(i int) Value {
 		t := res.At(i).Type()
 		label := fmt.Sprintf("%s.%s#%d.ret%d", m.name, method, n, i)
+		if m.uf {
+			var ts []*smt.Term
+			for _, a := range args {
+				switch u := unwrapIface(a).(type) {
+				case IntV:
+					ts = append(ts, u.T)
+				case BoolV:
+					ts = append(ts, u.T)
+				case StrV:
+					ts = append(ts, x.scalarTerm(u))
+				case SliceV:
+					ts = append(ts, x.bytesTerm(x.opaqueBytes(u)))
+				}
+			}
+			name := fmt.Sprintf("stub_%s_%s_%d", m.name, method, i)
+			for _, a := range ts {
+				name += "_" + a.Sort.String()
+			}
+			switch u := t.Underlying().(type) {
+			case *types.Slice:
+				return SliceV{Atom: x.B.App(name, smt.SStr, ts...)}
+			case *types.Basic:
+				switch {
+				case u.Info()&types.IsString != 0:
+					return StrV{Atom: x.B.App(name, smt.SStr, ts...)}
+				case u.Info()&types.IsBoolean != 0:
+					return BoolV{x.B.App(name, smt.SBool, ts...)}
+				case u.Info()&types.IsInteger != 0:
+					return IntV{x.B.App(name, smt.SInt, ts...)}
+				}
+			}
+			x.Unsupported("uninterpreted stub result of type %v", t)
+		}
 		if types.IsInterface(t) && typeName(t) == "error" {
 			if x.Choose(2, label+" error?") == 1 {
 				x.addNondet(label+".iserr", "choice", x.B.Int(1))
@@ -123,6 +157,11 @@ func (x *Exec) zzverifStub(name string, c *CallCtx) (Value, bool) {
 	switch name {
 	case "Recorder":
 		return ModelV{&RecorderModel{name: x.constStr(a[0], "recorder name"), env: x.Env}}, true
+	case "UFStub":
+		return ModelV{&RecorderModel{name: x.constStr(a[0], "stub name"), env: x.Env, uf: true}}, true
+	case "AssumeLoopBound":
+		x.loopAssume = x.concreteInt(a[0], "loop bound")
+		return nil, true
 	case "CallCount":
 		n := 0
 		want := x.constStr(a[0], "call name")
@@ -286,3 +325,7 @@ func (x *Exec) deepEqual(a, b Value, depth int) *smt.Term {
 	}
 	return x.valuesEqual(a, b)
 }
+
+// opaqueBytes turns a content byte slice that came from a string conversion of an atom
+// back into its atom; other byte slices must already be opaque.
+func (x *Exec) opaqueBytes(s SliceV) SliceV { return s }
